@@ -163,7 +163,7 @@ impl Prop for C01 {
                 }
                 // fixed-degree forms (Estrin) form bare powers of x, so those must be in range too; the
                 // dynamic-degree Horner form never does: only its terms and coefficients are constrained
-                let power_ok = form == 9 || in_range(&pw, 900);
+                let power_ok = form == 9 || i <= 1 || in_range(&pw, 900);
                 if !power_ok || !in_range(&pw.mul(&d(ci)), 900) || !in_range(&d(ci), 900) {
                     return Outcome::Skip("a partial term overflows/underflows 2^±900");
                 }
